@@ -77,6 +77,13 @@ def layout_s(need_origin=False, small_padding=False):
     return build()
 
 
+PREV_SET = {"langs": [{"code": "en", "layout": {"origin": [[20, "%"], [20, "%"]], "extent": [[60, "%"], [60, "%"]],
+                                                  "padding": None, "align": ["center", "top"], "webvtt": None},
+                       "cues": [{"start": 0, "end": 900000, "style": {}, "layout": None,
+                                 "nodes": [{"t": "earlier", "layout": None}]}]}],
+            "styles": {}, "layout": None}
+
+
 def _opt(s, n=2):
     return st.one_of(st.none(), *([s] * n))
 
@@ -110,7 +117,7 @@ def dfxp_strategy(tier):
                          "nodes": nodes, "style": {}, "layout": lc})
         return {"set": {"langs": [{"code": "en", "layout": lang_layout, "cues": cues}],
                         "styles": {}, "layout": None},
-                "fit": draw(st.booleans())}
+                "fit": draw(st.booleans()), "reuse": draw(st.integers(0, 3)) == 0}
     return build()
 
 
@@ -152,10 +159,19 @@ def check_dfxp(case, rec):
         case = dict(case, fit=False)
         rec.label("fit-dropped:origin-outside-safe-area")
     cs = model.to_pycaption(m)
+    writer, reader = DFXPWriter(fit_to_screen=case["fit"]), DFXPReader()
+    if case.get("reuse"):
+        # both objects have handled another document before (different fit option first)
+        try:
+            DFXPWriter(fit_to_screen=not case["fit"]).write(model.to_pycaption(m))
+            reader.read(writer.write(model.to_pycaption(PREV_SET)))
+        except Exception:  # noqa
+            pass
+        rec.label("reused-objects")
     with must("DFXPWriter.write"):
-        out = DFXPWriter(fit_to_screen=case["fit"]).write(cs)
+        out = writer.write(cs)
     with must("DFXPReader.read of DFXPWriter output"):
-        back = DFXPReader().read(out)
+        back = reader.read(out)
     lang = m["langs"][0]
     caps = back.get_captions("en")
     require(len(caps) == len(lang["cues"]), lambda: f"{len(caps)} captions after the round trip, {len(lang['cues'])} before")
@@ -239,7 +255,7 @@ def webvtt_strategy(tier):
                          "nodes": nodes, "style": {}, "layout": lc})
         return {"set": {"langs": [{"code": "en-US", "layout": lang_layout, "cues": cues}],
                         "styles": {}, "layout": None},
-                "fit": draw(st.booleans())}
+                "fit": draw(st.booleans()), "reuse": draw(st.integers(0, 3)) == 0}
     return build()
 
 
@@ -281,8 +297,16 @@ def check_webvtt(case, rec):
         rec.label("fit-dropped:origin-outside-safe-area")
     lang = m["langs"][0]
     cs = model.to_pycaption(m)
+    writer = WebVTTWriter(fit_to_screen=case["fit"])
+    if case.get("reuse"):
+        try:
+            WebVTTWriter(fit_to_screen=not case["fit"]).write(model.to_pycaption(m))
+            writer.write(model.to_pycaption(PREV_SET))
+        except Exception:  # noqa
+            pass
+        rec.label("reused-objects")
     with must("WebVTTWriter.write"):
-        out = WebVTTWriter(fit_to_screen=case["fit"]).write(cs)
+        out = writer.write(cs)
     try:
         cues = P.parse_webvtt(out)
     except P.RefParseError as e:
